@@ -1,9 +1,188 @@
-(* C16 — ending a session by any path releases everything it held. Statements only. *)
+(* C16 — ending a session by any path releases everything it held.
+   Statements only; proofs are in Proofs/TeardownProofs.v. Model: Model/Teardown.v (the code after the
+   fix commits 81d6b2b, b42d48d, f58f3aa, fe50cc3 and 9686c62).
+
+   "Releases everything" is [dheld s' e = []] (DHCP), [pheld s' i ip = []] (PPPoE), [sheld s' mac ip = []]
+   (subscriber.Manager): the summary functions list the resources of the property text that a session —
+   fixed BEFORE the ending operation — still has in the state after it:
+     RAddr  its address is allocated to it, or is neither on the free list nor quarantined   (clause 0)
+     RNat / RQos  a NAT block / QoS policy exists for its address                            (clauses 1, 2)
+     RCacheMac / RCacheCid / RCacheCidSub / RCacheVlan  a fast-path entry answers for it     (clause 3)
+     RAcct  a Start was issued and the number of Stops is not exactly one                     (clause 4)
+   Clause 5 (ending twice / by two paths) is stated on the step function: the second ending operation
+   returns the state unchanged and emits nothing.
+   Guards ([dwf] etc.) are decidable conditions on the state in which the session ends; they say that
+   the bookkeeping the session is entitled to assume is intact (docs/C16.md); the harness's guarded
+   streams stay inside them and the Examples show them on reachable states. *)
 From Coq Require Import ZArith NArith List Bool.
 From Verif Require Import Model.Teardown Proofs.TeardownProofs.
 Import ListNotations.
 Local Open Scope N_scope.
 
-Theorem C16_stub : forall (k : N) (m : amap N), aget k (adel k m) = None.
-Proof. exact (@aget_adel_same N). Qed.
-Print Assumptions C16_stub.
+(* ===================================================================== DHCP (dhcp.Server) *)
+
+(* client RELEASE: full (clauses 0-4), for every configuration and every state inside the guard *)
+Theorem C16_dhcp_release : forall c s mac l,
+  aget mac (leases s) = Some l -> dwf c s mac l = true ->
+  dheld (fst (fst (dstep c s (Release mac)))) (dsess_lease mac l) = [].
+Proof. exact d_release_releases_all. Qed.
+Print Assumptions C16_dhcp_release.
+
+(* DECLINE: refuted as stated in the property (any DECLINE from the client) ... *)
+Theorem C16_dhcp_decline_refuted :
+  exists c s mac l ip, aget mac (leases s) = Some l /\ dwf c s mac l = true /\
+    dheld (fst (fst (dstep c s (Decline mac ip)))) (dsess_lease mac l) <> [].
+Proof. exact d_decline_other_refuted. Qed.
+Print Assumptions C16_dhcp_decline_refuted.
+
+(* ... and proved under the guard "the DECLINE names the leased address" (the address is then
+   quarantined, not freed: a declined address must not be handed out again) *)
+Theorem C16_dhcp_decline_partial : forall c s mac l,
+  aget mac (leases s) = Some l -> l_ip l <> 0 -> dwf c s mac l = true ->
+  dheld (fst (fst (dstep c s (Decline mac (l_ip l))))) (dsess_lease mac l) = [].
+Proof. exact d_decline_own_releases_all. Qed.
+Print Assumptions C16_dhcp_decline_partial.
+
+(* lease expiry: the body of cleanupExpiredLeases for one expired lease (Tick folds it over the table) *)
+Theorem C16_dhcp_expiry : forall c s mac l,
+  aget mac (leases s) = Some l -> (l_ttl l < 0)%Z -> dwf c s mac l = true ->
+  dheld (fst (fst (expire_one c (s, [], []) mac))) (dsess_lease mac l) = [].
+Proof. exact d_expiry_releases_all. Qed.
+Print Assumptions C16_dhcp_expiry.
+
+(* a session that ends before its REQUEST (offered only): refuted — the offered address stays allocated *)
+Theorem C16_dhcp_offered_only_refuted :
+  exists c s mac e, dsess_of s mac = Some e /\ aget mac (leases s) = None /\
+    dheld (fst (fst (dstep c s (Release mac)))) e <> [] /\
+    dheld (fst (fst (dstep c s (Decline mac (se_ip e))))) e <> [].
+Proof. exact d_offered_only_refuted. Qed.
+Print Assumptions C16_dhcp_offered_only_refuted.
+
+(* ending twice, or by two paths one after the other (RELEASE/DECLINE in any combination): the second
+   operation changes nothing and emits nothing — every state, no guard *)
+Theorem C16_dhcp_ending_twice : forall c s mac o1 o2,
+  d_is_end mac o1 -> d_is_end mac o2 ->
+  let s1 := fst (fst (dstep c s o1)) in fst (dstep c s1 o2) = (s1, (0, 0, [])).
+Proof. exact d_ending_twice_no_effect. Qed.
+Print Assumptions C16_dhcp_ending_twice.
+
+(* ... and an expiry tick after the end finds nothing of that client *)
+Theorem C16_dhcp_expiry_after_end : forall c s mac ev mk,
+  aget mac (leases s) = None -> expire_one c (s, ev, mk) mac = (s, ev, mk).
+Proof. exact d_expire_after_end_noop. Qed.
+Print Assumptions C16_dhcp_expiry_after_end.
+
+(* the VLAN-pair cache is never populated, over every history (so "no VLAN entry answers" holds trivially) *)
+Theorem C16_dhcp_vlan_cache_empty : forall c ops, cvlan (drun c ops) = [].
+Proof. exact d_vlan_cache_always_empty. Qed.
+Print Assumptions C16_dhcp_vlan_cache_empty.
+
+Example C16_dhcp_guard_satisfiable :
+  exists l, aget 1 (leases stD) = Some l /\ dwf cfgD stD 1 l = true /\ dheld stD (dsess_lease 1 l) <> [] /\
+            l_ip l = 2 /\ l_cid l = 1 /\ l_sid l = 1.
+Proof. exact d_guard_satisfiable. Qed.
+
+(* ===================================================================== PPPoE (pppoe.Server, SessionTeardown) *)
+(* The code path holds one resource, the IPPool address: pppoe.Server programs no NAT, no QoS, and
+   sends no Accounting-Start. Guard: a server without pool has allocated nothing. *)
+
+Theorem C16_pppoe_padt : forall c s id mac i x,
+  pfind s id mac = Some (i, x) -> (pc_pool c || negb (ahas i (palloc s))) = true ->
+  pheld (fst (fst (pstep c s (Padt id mac)))) i (p_ip s i) = [].
+Proof. exact p_padt_releases. Qed.
+Print Assumptions C16_pppoe_padt.
+
+Theorem C16_pppoe_lcp_terminate : forall c s id mac i x,
+  pfind s id mac = Some (i, x) -> (pc_pool c || negb (ahas i (palloc s))) = true ->
+  pheld (fst (fst (pstep c s (LcpTerm id mac)))) i (p_ip s i) = [].
+Proof. exact p_lcpterm_releases. Qed.
+Print Assumptions C16_pppoe_lcp_terminate.
+
+Theorem C16_pppoe_auth_failure : forall c s id mac i x,
+  pfind s id mac = Some (i, x) -> (pc_pool c || negb (ahas i (palloc s))) = true ->
+  pheld (fst (fst (pstep c s (Pap id mac false)))) i (p_ip s i) = [].
+Proof. exact p_authfail_releases. Qed.
+Print Assumptions C16_pppoe_auth_failure.
+
+(* idle timeout: refuted (the address stays allocated) ... *)
+Theorem C16_pppoe_idle_refuted :
+  exists c s i, ahas i (palloc s) = true /\ aget 1 (tbl (fst (fst (pstep c s IdleTick)))) = None /\
+                pheld (fst (fst (pstep c s IdleTick))) i (p_ip s i) <> [].
+Proof. exact p_idle_cleanup_refuted. Qed.
+Print Assumptions C16_pppoe_idle_refuted.
+
+(* ... proved for sessions that hold no address yet (timed out before authentication) *)
+Theorem C16_pppoe_idle_partial : forall c s i,
+  ahas i (palloc s) = false -> pheld (fst (fst (pstep c s IdleTick))) i (p_ip s i) = [].
+Proof. exact p_idle_partial. Qed.
+Print Assumptions C16_pppoe_idle_partial.
+
+(* administrative / RADIUS disconnect and shutdown: SessionTeardown.cleanup, reached from
+   HandleClientPADT, TerminateSession, TerminateBy*, TerminateAll. Address released, the eBPF-remove
+   callback runs, an Accounting-Stop is sent for an authenticated session. *)
+Theorem C16_pppoe_teardown : forall c s i x,
+  aget i (heap s) = Some x -> ps_torn x = false ->
+  (negb (ahas i (palloc s)) || (pc_pool c && negb (ps_ip x =? 0))) = true ->
+  let r := pcleanup c s i in
+  pheld (fst (fst r)) i (p_ip s i) = [] /\ In (3, ps_id x) (snd (fst r)) /\
+  (pc_radius c && ps_auth x = true -> In (2, i) (snd (fst r))).
+Proof. exact p_cleanup_releases. Qed.
+Print Assumptions C16_pppoe_teardown.
+
+(* teardown twice: the second cleanup of the same session does nothing — no second Accounting-Stop *)
+Theorem C16_pppoe_teardown_twice : forall c s i,
+  let s1 := fst (fst (pcleanup c s i)) in pcleanup c s1 i = (s1, [], []).
+Proof. exact p_cleanup_twice. Qed.
+Print Assumptions C16_pppoe_teardown_twice.
+
+(* a PADT / LCP Terminate-Request / PAP reject for a session that is gone ends nothing *)
+Theorem C16_pppoe_frame_after_end : forall c s id mac,
+  pfind s id mac = None ->
+  pstep c s (Padt id mac) = (s, [], []) /\ pstep c s (LcpTerm id mac) = (s, [], []) /\
+  pstep c s (Pap id mac false) = (s, [], []).
+Proof. exact p_frame_after_end_noop. Qed.
+Print Assumptions C16_pppoe_frame_after_end.
+
+Example C16_pppoe_guard_satisfiable :
+  exists x, pfind stP 1 1 = Some (1, x) /\ aget 1 (heap stP) = Some x /\ ps_torn x = false /\ p_ip stP 1 = 2 /\
+            pheld stP 1 2 <> [].
+Proof. exact p_guard_satisfiable. Qed.
+
+(* ===================================================================== subscriber.Manager *)
+
+(* TerminateSession (administrative or RADIUS disconnect, idle and session timeout go through it):
+   address released once, MAC and IP indexes cleared, exactly one terminate event *)
+Theorem C16_submgr_terminate : forall c s n x,
+  aget n (ssn s) = Some x -> ((ss_ip x =? 0) || smem (ss_ip x) (salloc s)) = true ->
+  let r := sstep c s (STerminate n) in
+  sheld (fst (fst r)) (ss_mac x) (ss_ip x) = [] /\
+  snd (fst r) = (0, (if ss_ip x =? 0 then [] else [(5, ss_ip x)]) ++ [(6, n)]) /\
+  aget n (ssn (fst (fst r))) = None.
+Proof. exact s_terminate_releases. Qed.
+Print Assumptions C16_submgr_terminate.
+
+Theorem C16_submgr_terminate_twice : forall c s n,
+  let s1 := fst (fst (sstep c s (STerminate n))) in sstep c s1 (STerminate n) = (s1, (1, []), []).
+Proof. exact s_terminate_twice. Qed.
+Print Assumptions C16_submgr_terminate_twice.
+
+(* two paths at once: of the concurrent callers, r get past the existence check (r is observed on the
+   real code); the terminate event — hence the Accounting-Stop — is emitted exactly r times. The
+   sequential model cannot bound r; the harness forces the interleaving and observes r = 1 since fe50cc3. *)
+Theorem C16_submgr_concurrent_events : forall c s n r x,
+  aget n (ssn s) = Some x -> ss_ip x <> 0 ->
+  count n (map snd (filter (fun e => fst e =? 6) (snd (snd (fst (sstep c s (SRace n r))))))) = 1 + (r - 1).
+Proof. exact s_race_events. Qed.
+Print Assumptions C16_submgr_concurrent_events.
+
+(* shutdown: refuted — Manager.Stop releases nothing and emits nothing *)
+Theorem C16_submgr_shutdown_refuted :
+  exists c s n x, aget n (ssn s) = Some x /\
+    fst (sstep c s SStop) = (s, (0, [])) /\ sheld (fst (fst (sstep c s SStop))) (ss_mac x) (ss_ip x) <> [].
+Proof. exact s_stop_refuted. Qed.
+Print Assumptions C16_submgr_shutdown_refuted.
+
+Example C16_submgr_guard_satisfiable :
+  exists x, aget 1 (ssn stS) = Some x /\ ((ss_ip x =? 0) || smem (ss_ip x) (salloc stS)) = true /\
+            sheld stS (ss_mac x) (ss_ip x) <> [].
+Proof. exact s_guard_satisfiable. Qed.
